@@ -50,12 +50,43 @@ class Clock:
         return self.t
 
 
-def make_console(width, height, clock=None):
+DETECTED = [None]        # what the (emulated) terminal reports as its size: (columns, lines) or None = not a tty
+_size_patched = [False]
+
+
+def _emulate_terminal_size():
+    """os.get_terminal_size answers from DETECTED for the rest of this process (a shard runs one session at a time):
+    the console then learns its size the way it does on a real terminal."""
+    if _size_patched[0]:
+        return
+    import os
+
+    def get_terminal_size(fd=1):
+        if DETECTED[0] is None:
+            raise OSError("not a terminal (emulated)")
+        return os.terminal_size(DETECTED[0])
+    os.get_terminal_size = get_terminal_size
+    _size_patched[0] = True
+
+
+def make_console(width, height, clock=None, size_source="args"):
+    """size_source: where the console learns its size from - 'args' (width= and height=), 'width+detected' (width=
+    only, the height from the terminal), 'detected' (both from the terminal).  (This release does not read
+    COLUMNS / LINES.)"""
     from rich.console import Console
     import datetime
-    return Console(file=TTY(), width=width, height=height, force_terminal=True, color_system="truecolor",
-                   legacy_windows=False, _environ={}, log_path=False, get_time=clock or Clock(),
-                   get_datetime=lambda: datetime.datetime(2021, 1, 2, 3, 4, 5))
+    _emulate_terminal_size()
+    kw = {"width": width, "height": height}      # (an 'args' console never asks the terminal: DETECTED is left alone)
+    environ = {}
+    if size_source == "width+detected":
+        kw = {"width": width}
+        DETECTED[0] = (width + 7, height)
+    elif size_source == "detected":
+        kw = {}
+        DETECTED[0] = (width, height)
+    return Console(file=TTY(), force_terminal=True, color_system="truecolor",
+                   legacy_windows=False, _environ=environ, log_path=False, get_time=clock or Clock(),
+                   get_datetime=lambda: datetime.datetime(2021, 1, 2, 3, 4, 5), **kw)
 
 
 def plain_lines(width, renderables):
@@ -148,7 +179,10 @@ class Session:
         self.cfg = cfg
         self.W, self.H = cfg["width"], cfg["height"]
         self.clock = Clock()
-        self.console = make_console(self.W, self.H, self.clock)
+        self.console = make_console(self.W, self.H, self.clock, cfg.get("size_source", "args"))
+        if tuple(self.console.size) != (self.W, self.H):
+            ctx.violation("console-size-differs-from-its-source:%s" % cfg.get("size_source", "args"),
+                          {"config": cfg, "size": tuple(self.console.size)})
         self.screen = term.Screen(self.W, self.H)
         self.fed = 0
         self.printed = []           # expected printed lines, in order
@@ -395,7 +429,8 @@ def restore_std(saved):
 
 def wl_histories(ctx, rng, case_no):
     kind = rng.choice(["live", "live", "progress", "status"])
-    cfg = {"width": rng.choice([20, 40, 60, 100]), "height": rng.choice([3, 4, 6, 8, 12]),
+    cfg = {"size_source": rng.choice(["args", "args", "width+detected", "detected"]),
+           "width": rng.choice([20, 40, 60, 100]), "height": rng.choice([3, 4, 6, 8, 12]),
            "transient": rng.random() < 0.4, "overflow": rng.choice(["crop", "ellipsis", "ellipsis", "visible"])}
     ops = [["start"]] + gen_history(rng, kind, cfg["height"], rng.choice([5, 12, 25, 40])) + [["stop"]]
     saved = (sys.stdout, sys.stderr)
